@@ -19,6 +19,7 @@ func init() {
 		{"int-float", famIntFloat},
 		{"strings", famStrings},
 		{"range", famRange},
+		{"long-range", famLongRange},
 		{"seq-builtins", famSeq},
 		{"literals", famLiterals},
 		{"int-api", famIntAPI}, // integer operators get a double share
